@@ -437,13 +437,16 @@ FLOAT_POOL = [0, 1, -1, 10, 2 ** 53, 0.0, -0.0, 0.5, 1.5, -1.5, 2.5, 1e10, 1e300
 BOOL_POOL = ["t", "T", "true", "TRUE", "True", "1", "on", "On", "yes", "YES", "y", "f", "false", "FALSE", "0", "off", "no", "N", "n", "maybe", "", " true", "2",
              "tRuE", "yEs", "İ", "ON "]
 ADDR_POOL = ["0.0.0.0", "1.2.3.4", "255.255.255.255", "192.168.1.1", "10.0.0.1", "256.1.1.1", "1.2.3", "1.2.3.4.5", "01.2.3.4", "1.2.3.04", "1.2.3.4 ", " 1.2.3.4",
-             "1..3.4", "a.b.c.d", "1.2.3.4/24", "1234.1.1.1", "1.2.3.-4", "٣.1.1.1", "", "1.2.3.4\n", "127.1", "0.0.0.00", "255.255.255.0", "0.0.0.255"]
+             "1..3.4", "a.b.c.d", "1.2.3.4/24", "1234.1.1.1", "1.2.3.-4", "٣.1.1.1", "", "1.2.3.4\n", "127.1", "0.0.0.00", "255.255.255.0", "0.0.0.255",
+             # IPv6 literals are not IPv4 addresses
+             "::1", "fe80::1", "::ffff:10.0.0.1", "2001:db8::8a2e:370:7334", "::", "0:0:0:0:0:0:0:1", "[::1]", "1.2.3.4%eth0"]
 NET_POOL = ["10.0.0.0/8", "192.168.1.0/24", "192.168.1.1/24", "0.0.0.0/0", "1.2.3.4/32", "1.2.3.4", "10.0.0.0/255.0.0.0", "10.0.0.0/0.255.255.255",
             "192.168.1.0/255.255.255.0", "192.168.0.0/0.0.255.255", "10.0.0.0/08", "10.0.0.0/008", "10.0.0.0/33", "10.0.0.0/-1", "10.0.0.0/", "10.0.0.0/8/8",
             "10.0.0.0/255.0.255.0", "10.0.0.0/a", "/8", "", "10.0.0.0 /8", " 10.0.0.0/8 ", "128.0.0.0/1", "10.0.0.0/16", "172.16.0.0/12", "1.1.1.1/31", "1.1.1.0/31",
             "0.0.0.0/0.0.0.0", "0.0.0.0/255.255.255.255", "1.2.3.4/255.255.255.255", "10.0.0.0/٨"]
 HOST_POOL = ["localhost", "example.com", "a", "ab", "a-b.c", "-ab", "ab-", "a_b", "MYPC", "my pc", "host!", "toolongnetbiosname1", "under_score_host", "1.2.3.4",
-             "256.1.1.1", "a.b", "é", "éé", "host\n", "example.com\n", "1.2.3.4\n", "a\n", "", "x" * 16, "x" * 15, "a..b", "A1", "~tilde", "{brace}", "a/b", "a:b"]
+             "256.1.1.1", "a.b", "é", "éé", "host\n", "example.com\n", "1.2.3.4\n", "a\n", "", "x" * 16, "x" * 15, "a..b", "A1", "~tilde", "{brace}", "a/b", "a:b",
+             "::1", "fe80::1", "::ffff:10.0.0.1", "2001:db8::1"]
 URL_POOL = ["http://example.com", "https://a.b/c?d=e#f", "ftp://x", "mailto:a@b", "example.com", "//example.com/x", "http:", ":80", "1http://x", "a+b.c-d://x", "", "x",
             "HTTP://EXAMPLE.COM", " http://x", "http://x ", "\thttp://x", "ht tp://x", "http://[::1]/", "http://[::1/", "http://]x[/", "http://a]b/", "file:///etc/passwd",
             "a:b", "a1:b", "é://x", "http://é.com", "x:", "javascript:alert(1)", "ht\ntp://x", "http://exa\tmple.com"]
@@ -751,6 +754,14 @@ def satisfies(f, v):
             return False
         if any(ch in v for ch in "\n\r\x0b\x0c\x1c\x1d\x1e\x85\u2028\u2029") or v != v.strip():
             return False
+        if k == "ipv4addr" and not any(f.get(o) not in (None, [], "", False) for o in _STR_OPTS):
+            # an IPv4 address in its canonical text: four decimal numbers 0..255 without leading zeros, separated by dots
+            parts = v.split(".")
+            if len(parts) != 4 or not all(p.isascii() and p.isdigit() and (p == "0" or not p.startswith("0")) and int(p) <= 255 for p in parts):
+                return False
+            return True
+        if ":" in v:
+            return False                         # neither a host name nor an IPv4 address has a colon (an IPv6 literal does)
         return None
     if k == "bytes":
         return isinstance(v, bytes)
